@@ -100,12 +100,15 @@ def constants(chk, F, ty):
             chk.undecide(key, "unsupported: %s" % ex, body_loc(F, body))
 
 
-def complex_field(chk, F, ty, thorough, branches=True):
+def complex_field(chk, F, ty, thorough, branches=True, only=None):
+    """only: restrict to the named forwarding items (C09 reuses the rule for the power items)"""
     imp = the_impl(chk, F, "ComplexField", ty)
     if imp is None:
         return
     names = ["a", "b", "c"]
     for name, (n, base) in CF.items():
+        if only is not None and name not in only:
+            continue
         body = F.impl_item(imp, name)
         key = "cf|%s|%s" % (ty, name)
         if body is None:
@@ -117,7 +120,9 @@ def complex_field(chk, F, ty, thorough, branches=True):
                       names[:n], lambda ctx, base=base: base(), presences=pres)
     # powi with symbolic exponent (all arms)
     body = F.impl_item(imp, "powi")
-    if body is None:
+    if only is not None and "powi" not in only:
+        pass
+    elif body is None:
         chk.undecide("cf|%s|powi" % ty, "missing anchor")
     else:
         chk.count("ComplexField forwarding items")
@@ -126,6 +131,8 @@ def complex_field(chk, F, ty, thorough, branches=True):
             env = {("c", "EPS"): EPS_VALUE, ("c", "n"): case[1]}
             check_lifting(chk, "cf|%s|powi|%s" % (ty, case[0]), "ComplexField::powi is DualNum::powi", F, body, ty, ["self"],
                           lambda ctx, case=case: pow_real(case), extra_args=[lambda: Sc(N)], env=env)
+    if only is not None:
+        return
     # sin_cos
     body = F.impl_item(imp, "sin_cos")
     if body is not None:
